@@ -36,6 +36,17 @@ def hidden_keys(v, acc):
     return acc
 
 
+def type_digest(d):
+    """digest of the Python types of every container and value, apart from hidden keys"""
+    def sig(x):
+        if isinstance(x, dict):
+            return [type(x).__name__, [[k if isinstance(k, str) else repr(k), sig(v)] for k, v in x.items() if not project.is_hidden(k)]]
+        if isinstance(x, (list, tuple)):
+            return [type(x).__name__, [sig(e) for e in x]]
+        return type(x).__name__
+    return hashlib.sha1(json.dumps(sig(d)).encode()).hexdigest()
+
+
 def printed_digest(out):
     """digest of the printed text apart from comments: line events plus, per line, the offset at which the value starts"""
     acc = []
@@ -104,7 +115,7 @@ def run(tier):
             except Exception:  # noqa: BLE001
                 continue               # not accepted / not printable: other properties
             itn = tracecheck.Interner()
-            rec = {"tid": tid, "what": "transparent", "base": itn.value(project.project(base)), "printed": itn.s(base_dig), "variants": []}
+            rec = {"tid": tid, "what": "transparent", "base": itn.value(project.project(base)), "printed": itn.s(base_dig), "types": itn.s(type_digest(base)), "variants": []}
             ok = True
             for (pflag, cflag) in combos:
                 p, m = parsers[(pflag, cflag)]
@@ -128,7 +139,7 @@ def run(tier):
                         hk = hidden_keys(d if not isinstance(d, list) else list(d), set())
                         rec["variants"].append({"name": name, "proj": itn.value(project.project(d)),
                                                 "position_printed": out.count("__position__") > base_out.count("__position__"),
-                                                "printed": itn.s(printed_digest(out)), "hidden_ok": hk <= allowed})
+                                                "printed": itn.s(printed_digest(out)), "types": itn.s(type_digest(d)), "hidden_ok": hk <= allowed})
                     except Exception as ex:  # noqa: BLE001
                         ck.violation("C13|raised|%s|%s" % (name.split(":")[1], type(ex).__name__),
                                      "loading/printing with bookkeeping on raised %s: %s" % (type(ex).__name__, str(ex)[:120]),
